@@ -1,6 +1,6 @@
 ----------------------------- MODULE IsaZ80_Gen -----------------------------
 EXTENDS IsaZ80
-CONSTANTS Cpu, K, Salt
+CONSTANTS Cpu, K, Salt, Step
 VARIABLES form, ops, pc
 INSTANCE IsaGen
 ASSUME \A f \in Forms : FormWellFormed(f, UnitBits)
